@@ -8,7 +8,7 @@ from ..common import Names, rat
 from . import c14
 
 PROP = "C16"
-LEAN_MODULE = "VK.Props.C16Restrict"
+LEAN_MODULE = "VK.Check.C16"
 THEOREMS = [
     "VK.C16_whichBin_iff",
     "VK.C16_whichBin_width",
